@@ -351,6 +351,7 @@ type otApplyContext struct {
 	perSyllable     bool
 	newSyllables    uint8 // 0xFF for undefined
 	random          bool
+	randomFlagged   bool // the whole buffer has been flagged unsafe to break, for the current lookup
 
 	lastBase      int // GPOS uses
 	lastBaseUntil int // GPOS uses
@@ -381,6 +382,7 @@ func (c *otApplyContext) reset(tableIndex uint8, font *Font, buffer *Buffer) {
 	c.perSyllable = false
 	c.newSyllables = 0xFF
 	c.random = false
+	c.randomFlagged = false
 
 	c.lastBase = -1
 	c.lastBaseUntil = 0
